@@ -92,13 +92,15 @@ deriving Repr
 def readOrdering (ordText : List Ch) : Option (List (String × Nat)) :=
   (tokenize ordText []).map Parser.extractVars
 
+/-- no `-o`: the empty ordering; with `-o`: what the file yields (`none` = unreadable) -/
+def orderingOf : Option (List Ch) → Option (List (String × Nat))
+  | none => some []
+  | some t => readOrdering t
+
 /-- `main` after argument parsing (`src/bin/rsbdd.rs:108-215`).  `none` = error exit (or the
 evaluation budget ran out). -/
 def run (iters fuel : Nat) (text : List Ch) (ordering : Option (List Ch)) (o : Options) : Option Output :=
-  let ord : Option (List (String × Nat)) := match ordering with
-    | none => some []
-    | some t => readOrdering t
-  match ord with
+  match orderingOf ordering with
   | none => none
   | some ord =>
     match tokenize text ord with
